@@ -30,9 +30,13 @@
  * Constants
  */
 
-/* Extend record types with the following special values. */
+/* Extend record types with the following special values. They lie
+   outside the range of the on-disk type byte, so that a record whose
+   header carries an unknown type (e.g. 5 or 6) is reported as such
+   instead of being taken for the end of the file or for a record
+   that was already reported. */
 enum {
-  LDB_EOF = LDB_MAX_RECTYPE + 1,
+  LDB_EOF = 0x100,
 
   /* Returned whenever we find an invalid physical record.
    *
@@ -42,7 +46,7 @@ enum {
    * - The record is a 0-length record (No drop is reported)
    * - The record is below constructor's initial_offset (No drop is reported)
    */
-  LDB_BAD_RECORD = LDB_MAX_RECTYPE + 2
+  LDB_BAD_RECORD = 0x101
 };
 
 /*
